@@ -1,6 +1,7 @@
 //! Typed slice entry points of the allocator without a collection on top: `try_allocate_slice` + `shrink_slice`
 //! (the path BumpVec::shrink_to_fit / into_boxed_slice / BumpString::into_str take). Cheap replacement for the
 //! BumpVec-level harnesses of vecs.rs, which do not finish within the machine's budget.
+use crate::check;
 use crate::common::*;
 use bump_scope::alloc::Allocator;
 use bump_scope::settings::BumpAllocatorSettings;
@@ -38,17 +39,17 @@ where
     kani::cover!(r.is_some() && addr(q) != addr(p), "[moves] the shrunk slice moved (downwards)");
     kani::cover!(r.is_some() && new_len == 2, "[some] shrunk to two elements");
     let cur = bump.stats().current_chunk().unwrap();
-    assert!(addr(cur.bump_position()) % St::MIN_ALIGN == 0, "C10: bump position is not a multiple of the minimum alignment after shrink_slice");
-    assert!(addr(q) >= addr(cur.content_start()) && addr(q) + new_len <= addr(cur.content_end()), "C01: shrunk slice outside the chunk");
+    check!(addr(cur.bump_position()) % St::MIN_ALIGN == 0, "C10: bump position is not a multiple of the minimum alignment after shrink_slice");
+    check!(addr(q) >= addr(cur.content_start()) && addr(q) + new_len <= addr(cur.content_end()), "C01: shrunk slice outside the chunk");
     if i < new_len {
-        assert!(unsafe { w.read(addr(q) + i) } == v, "C02: shrink_slice lost the surviving prefix");
+        check!(unsafe { w.read(addr(q) + i) } == v, "C02: shrink_slice lost the surviving prefix");
     }
     if !St::SHRINKS {
-        assert!(bump.stats().allocated() >= allocated0, "C13: shrink_slice decreased the allocated byte count although shrinking is off");
-        assert!(r.is_none() || addr(q) == addr(p), "C13: shrink_slice moved the slice although shrinking is off");
+        check!(bump.stats().allocated() >= allocated0, "C13: shrink_slice decreased the allocated byte count although shrinking is off");
+        check!(r.is_none() || addr(q) == addr(p), "C13: shrink_slice moved the slice although shrinking is off");
     }
     if let Ok(n) = bump.try_allocate_slice::<u8>(1) {
-        assert!(disjoint(addr(n), 1, addr(q), new_len), "C01: allocation after shrink_slice overlaps the slice");
+        check!(disjoint(addr(n), 1, addr(q), new_len), "C01: allocation after shrink_slice overlaps the slice");
         kani::cover!(true, "allocated after the shrink");
     }
     kani::cover!(true, "END: harness ran to completion");
@@ -67,22 +68,22 @@ where
     set_budget(0);
     let lf = any_layout(4, 2);
     let (fx, fy) = (x.allocate(lf).is_ok(), y.allocate(lf).is_ok());
-    assert!(fx == fy, "C17: identical arenas disagree on the filler");
+    check!(fx == fy, "C17: identical arenas disagree on the filler");
     let dy: &dyn BumpAllocatorCore = &*y;
     let Ok(px) = x.try_allocate_slice::<u8>(CAP) else { return };
     let Ok(py) = dy.try_allocate_slice::<u8>(CAP) else { return };
     let off = |b: &Bump<VA, St>, p: NonNull<u8>| addr(p).wrapping_sub(addr(b.stats().current_chunk().unwrap().chunk_start()));
-    assert!(off(&x, px) == off(&y, py), "C17: typed and dyn try_allocate_slice returned different offsets");
+    check!(off(&x, px) == off(&y, py), "C17: typed and dyn try_allocate_slice returned different offsets");
     let new_len: usize = kani::any();
     kani::assume(new_len <= CAP);
     let rx = unsafe { x.shrink_slice(px, CAP, new_len) };
     let ry = unsafe { dy.shrink_slice(py, CAP, new_len) };
     kani::cover!(rx.is_some() && new_len == 3, "[some] shrunk to three elements through both entry points");
-    assert!(rx.is_some() == ry.is_some(), "C17: typed and dyn shrink_slice disagree on whether the slice was shrunk");
+    check!(rx.is_some() == ry.is_some(), "C17: typed and dyn shrink_slice disagree on whether the slice was shrunk");
     if let (Some(a), Some(b)) = (rx, ry) {
-        assert!(off(&x, a) == off(&y, b), "C17: typed and dyn shrink_slice returned different offsets");
+        check!(off(&x, a) == off(&y, b), "C17: typed and dyn shrink_slice returned different offsets");
     }
-    assert!(x.stats().allocated() == y.stats().allocated(), "C17: typed and dyn shrink_slice left different allocated byte counts");
+    check!(x.stats().allocated() == y.stats().allocated(), "C17: typed and dyn shrink_slice left different allocated byte counts");
     kani::cover!(true, "END: harness ran to completion");
 }
 
